@@ -31,6 +31,7 @@ PROPS["C09"] = {
     "rule": ("pairs: a generated target state A (label, command, declared inputs with real files, outputs, dependency digests, fingerprint, platform) and a state B derived by a named relation; "
              "must-equal relations: permutations of every list / map insertion order, checkout location, mtimes, bystander files, platform under multiplatform-cache; "
              "must-differ relations: every single-component edit and a concatenation-preserving boundary shift for every pair of adjacent components. "
+             "loaded: one package loaded twice through loading.LoadPackages from renderings that differ only in declaration order of (overlapping) input patterns, excludes, outputs, fingerprint entries, file creation order, BUILD format, location, workers - keys must be equal. "
              "alias: dependant whose dependency is declared directly or through 1-3 aliases, dependency output digest h1 vs h2. "
              "Non-trivial = a non-identity permutation/relocation or a boundary shift (pairs), an alias chain >= 1 (alias); distinct by full case."),
     "assumptions": [
@@ -42,6 +43,9 @@ PROPS["C09"] = {
         {"name": "pairs", "pkg": "c09", "test": "TestPairs",
          "quick": {"shards": 8, "checks": 24000, "cap": 900},
          "thorough": {"shards": 16, "checks": 2000000, "cap": 7200}},
+        {"name": "loaded", "pkg": "c09", "test": "TestLoaded",
+         "quick": {"shards": 4, "checks": 3000, "cap": 600},
+         "thorough": {"shards": 8, "checks": 200000, "cap": 3600}},
         {"name": "alias", "pkg": "c09", "test": "TestAliasDeps",
          "quick": {"shards": 1, "checks": 2000, "cap": 300},
          "thorough": {"shards": 2, "checks": 100000, "cap": 1800}},
